@@ -205,8 +205,9 @@ class Sample(object):
         # removal from the beam since the answer is a time after removal.
         initial = max(initial, 0.)
         # Tolerance relative to the target, so that the search does not stop
-        # at the initial guess when the activities are small.
-        t, ft = find_root(initial, f, df, tol=1e-10*target)
+        # at the initial guess when the activities are small, and tight enough
+        # that a target just below the activity at removal gives a time > 0.
+        t, ft = find_root(initial, f, df, tol=1e-13*target)
         percent_error = 100*abs(ft)/target
         if percent_error > 0.1:
             #return 1e100*365*24 # Return 1e100 rather than raising an error
